@@ -21,9 +21,15 @@ CHECKS = {
  "C06": dict(level=MC, technique="TLA+ model (Contact.tla Reeval/Qualifies, Membership invariant) + replay of all (contact, modifier) cases directly and as sessions + trace validation (ContactTrace.tla MembershipOK/Deactivated/ChangesReported)",
    text="TLC checks on the model that after every effective modifier membership of every query group equals (active and query matches) and non-active contacts hold no static group; on recorded data TLC checks the same equivalence for every query-based group of the assets after every direct modifier application and every engine call (start with manual and msg triggers, resume), using the real evaluator's verdict on the bare query as a logged fact, plus that group changes are all announced. Starting contacts include stored memberships that are already wrong.",
    note="Trusted: contactql.EvaluateQuery for the bare query (cross-checked by C15); query groups over name, field, tel URN, language, tickets, last_seen_on.", ref="4 C06"),
+ "C07": dict(level=MC, technique="TLA+ decision-list model (Router.tla, RouterRand.tla) enumerated by TLC; cases replayed as one-node flows; TLC recomputes the prescribed category/exit from logged per-case test outcomes (RouterTrace.tla)",
+   text="The switch router is specified as an ordered decision list over per-case outcomes; TLC enumerates all case lists (<=2 quick, <=3 thorough) over a modelled test family incl. erroring tests and error arguments, categories, defaults, localized arguments, operands and result names, plus random routers at category boundaries, timeout resumes and router-less nodes. Each case runs on the real engine; the outcome of every case's test is logged by calling the registered test function in the run's environment, and TLC compares the exit taken, failure-when-none, saved category/value/input and the segment with RouteSwitch over the logged outcomes. Tens of thousands of random routers over ALL registered tests are validated the same way.",
+   note="Trusted: harness calls the registered test with the same operand/arguments the router does; test semantics themselves are uninterpreted (model-vs-real differences are drift).", ref="4 C07"),
  "C10": dict(level=MC, technique="TLA+ model (Engine.tla resume decision list + AssetFault actions) + replay incl. asset faults + trace validation (EngineTrace.tla)",
    text="The resume decision list (reject 101/102/103 before anything is touched; fail the session for missing flow, resume limit, vanished node, node without wait) is model checked with asset faults as independently enabled actions; behaviours including faults are replayed (assets rebuilt, session re-read) and TLC checks on every recorded call that a rejected resume left the session JSON byte-identical with no events and that impossible resumes end the session failed with a failure event.",
    note="Trusted: harness projection; byte comparison of json.Marshal(session) done in Go and logged as a boolean; fault kinds flow_gone/node_gone/wait_gone.", ref="4 C10"),
+ "C18": dict(level=MC, technique="TLA+ decision function (LocCore.tla) enumerated exhaustively over the configuration lattice (Localization.tla); every configuration replayed on the engine; TLC recomputes the expected language of each part from the logged configuration (LocalizationTrace.tla)",
+   text="The fallback chain (contact language if allowed, environment default, flow base; first that is base or has a non-empty translation; [] and [\"\"] count as absent; text/attachments/quick replies independent; message locale from the text's language; category_localized) is a finite decision function. TLC enumerates the whole lattice (61k configurations quick, ~550k thorough), each becomes an environment + contact + flow run on the real engine, and TLC compares msg_created text/attachments/quick replies/locale and the result's localized category with the function.",
+   note="Trusted: decoding of planted values by the harness. The bounded space is the space (3 languages, allowed lists <=2).", ref="4 C18"),
 }
 NA_REASON = "check not built yet (work in progress, see DESIGN.md section 8)"
 
